@@ -685,7 +685,7 @@ class SymEx:
                 e = lambda r, c: self.mat_elem(st, m, r, c)
                 return P(add(add(mul(e(0, 0), px), mul(e(0, 1), py)), e(0, 2)),
                          add(add(mul(e(1, 0), px), mul(e(1, 1), py)), e(1, 2)))
-            if 'Transform<' in name.split('for')[0]:
+            if 'Transform<' in name.split(' for ')[0]:
                 a, b = args[0], args[1]
                 ea = lambda r, c: self.mat_elem(st, a, r, c)
                 eb = lambda r, c: self.mat_elem(st, b, r, c)
@@ -710,6 +710,9 @@ class SymEx:
 def short_name(n):
     """Readable, stable name of a callee for opaque applications."""
     n = n.replace('packing::', '')
+    import re
+    for _ in range(3):
+        n = re.sub(r'::<[^<>]*>', '', n)
     if n.startswith('<') and ' as ' in n:
         # <T as Trait>::method  -> Trait::method
         try:
